@@ -27,19 +27,25 @@ Per row:
               FAbsent            not passed (the constructor then uses zero)
               FOperand           `<expr>.fill_value` (directly, or a local name all of whose assignments are
                                  such expressions, or the matching component of a helper's returned tuple)
-              FConvert           conversion constructor `COO(x)` / `GCXS(x, compressed_axes=..)`: one positional
-                                 array argument, no data/shape — the fill is taken from the argument
+              FConvert           conversion constructor `COO(x)` / `GCXS(x, compressed_axes=..)` (one positional
+                                 array argument, no data/shape) or `X.from_coo(..)` — the fill travels with the argument
+              FDense             `X.from_numpy / from_scipy_sparse / from_iter(..)` without fill_value: built from an
+                                 object that has no fill value
               FConst z           integer / boolean literal
               FParam             a parameter of the function itself (creation functions, class methods)
               FLocal             any other computed expression
             plus the source text of the expression.
-  s_delegates  names of other table rows the function calls (by the same name resolution), and the flags
-            s_returns_self (some `return self`/`return x` of a parameter) and s_public.
+  s_delegates  names of other table rows the function calls (by the same name resolution; `x[...]` counts as "getitem",
+            copy.copy / copy.deepcopy as "stdlib.copy"), and the flags s_returns_self (some `return <parameter>`) and
+            s_public.  A `return NotImplemented` is a way out of kind PNotImpl (not a result).
+Also emitted: array_definers (classes defining __array__), auto_densify_readers (every function of the backend that
+mentions AUTO_DENSIFY), auto_densify_source (the expression _settings.py computes it with; must be the expected one).
 
 Part 2 — sliced py2v fragments (table tools/frags/fill.py:SLICED): the loop bodies of
 check_zero_fill_value / check_consistent_fill_value, the head of check_consistent_fill_value, the
-AUTO_DENSIFY test of SparseArray.__array__, the dense-mix decision of _Elemwise._get_fill_value, the
-admissibility test of SparseArray.reduce; and facts `auto_densify_source`, `array_overriders`.
+whole check_fill_value, the AUTO_DENSIFY test of SparseArray.__array__, SparseArray._to_scalar, the dense-mix decision
+of _Elemwise._get_fill_value, the admissibility test of SparseArray.reduce (plus the presence of the fill-correction
+statements that Model/FillRules.v transcribes), the size test of COO/GCXS.maybe_densify.
 
 generate(repo) -> ({"S_fill.v": coq_text}, report)"""
 import ast
